@@ -1036,19 +1036,37 @@ fn c07_cases(ctx: &mut Ctx) {
       }
       ctx.k("invalid_freq", &format!("{} {} {}", fl(ws), fl(wi), fl(wp0)), "1");
     }
-    // just inside the box: the support test itself (observed through jsa_raw with the threshold disabled)
+    // just inside the box: the support test itself, observed through jsa_raw with the threshold
+    // disabled.  Pairs with ws + wi = wp and |ws - wi| ∈ {0.75, 0.75(1-1e-15), 0.74, 0.72, 0.705}·wp,
+    // the inner ±1 ulp edges and ws = wp.  Where the phase-matching amplitude itself is the literal
+    // zero (underflow far from phase matching) nothing can be observed.
     let lo_edge = next_down(hi_edge);
-    for (ws, wi) in [(lo_edge, base), (base, lo_edge), (wp0, wi0 * 0.5), (ws0 * 0.5, wp0)] {
+    let mut inside: Vec<(f64, f64)> = vec![(lo_edge, base), (base, lo_edge), (wp0, wi0 * 0.5), (ws0 * 0.5, wp0)];
+    for frac in [0.75, 0.75 * (1.0 - 1e-15), 0.74, 0.72, 0.705, 0.5] {
+      let hi = 0.5 * (1.0 + frac) * wp0;
+      let lo = wp0 - hi;
+      if (hi - lo).abs() <= 0.75 * wp0 {
+        inside.push((hi, lo));
+        inside.push((lo, hi));
+      }
+    }
+    for (ws, wi) in inside {
       let mut s0 = spdc.clone();
       s0.pump_spectrum_threshold = -1.0;
-      let r = guard(move || jsa_raw(w(ws), w(wi), &s0, Integrator::Simpson { divs: 6 }));
-      if let Some(r) = r {
-        // a value (even NaN) other than the literal zero means the box test let the pair through
-        let through = !(r.re == 0.0 && r.im == 0.0);
-        if through {
-          ctx.k("invalid_freq", &format!("{} {} {}", fl(ws), fl(wi), fl(wp0)), "0");
-        } else {
+      let s1 = s0.clone();
+      let integ6 = Integrator::Simpson { divs: 6 };
+      let pm = guard(move || *(phasematch_fiber_coupling(w(ws), w(wi), &s1, integ6) / PerMeter4::new(1.0)));
+      let r = guard(move || jsa_raw(w(ws), w(wi), &s0, integ6));
+      if let (Some(pm), Some(r)) = (pm, r) {
+        let alpha = pump_spectral_amplitude(w(ws) + w(wi), &spdc);
+        let prod = alpha * pm;
+        if prod.re == 0.0 && prod.im == 0.0 {
           ctx.count("c07/inside-box/zero-integral");
+        } else {
+          // the amplitude is not the literal zero: jsa_raw is zero iff the box test rejected the pair
+          let rejected = r.re == 0.0 && r.im == 0.0;
+          ctx.k("invalid_freq", &format!("{} {} {}", fl(ws), fl(wi), fl(wp0)), if rejected { "1" } else { "0" });
+          ctx.count("c07/inside-box/observed");
         }
       }
     }
